@@ -794,7 +794,7 @@ fn compose_hangul(a: char, b: char) -> Option<char> {
         Some(char::try_from(r).unwrap())
     } else if S_BASE <= l
         && l <= (S_BASE + S_COUNT - T_COUNT)
-        && T_BASE <= v
+        && T_BASE < v
         && v < (T_BASE + T_COUNT)
         && (l - S_BASE) % T_COUNT == 0
     {
